@@ -2,9 +2,12 @@
 import numpy as np
 import gen
 import spec
-from props.common import load_impl, make_prov, exc_name, truth_table_impl
+from props.common import load_impl, make_prov, exc_name, truth_table_impl, rand_slice, slice_json
 
-RULE = ("random DNF containers x (fork by random repeat vectors incl. 0; selection by slice / index list or array / boolean mask as array or plain list; default provenance "
+RULE = ("random DNF containers x (fork by random repeat vectors incl. 0; selection by slice (bounds open / in range / negative / out of range on either side, "
+        "steps open, positive and NEGATIVE: p[::-1], p[3::-1], p[::-2], p[2:-100:-1], p[-100:100:2] ...; also applied to the result of a fork) / index list or array / "
+        "boolean mask as array or plain list; the expected sub-mask of a slice is the plain Python list of row truth values sliced with the same slice object, the model "
+        "is asked for the index list range(*slice.indices(n)); default provenance "
         "through Importance.fit; Provenance(data=ids) and fit(provenance=ids) for arbitrary integer identifiers (negative, gaps, unsorted); "
         "join of two containers) x ALL assignments; compared with the row-wise definition and with the Lean model Ds.Prov.fork/select/ofGroups/"
         "default/join. Non-trivial = result has >= 2 rows with different truth tables; distinct = distinct (container, operation).")
@@ -21,10 +24,11 @@ def run(ctx):
     n_cases = 100 if ctx.tier == "quick" else 1200
     for it in range(n_cases):
         kind = ["fork", "select", "groups", "default", "join"][it % 5]
+        label = kind
         n_units = rng.randint(1, 4)
         asg = spec.assignments(n_units)
         if kind in ("fork", "select"):
-            exprs = [gen.rand_expr_flat(rng, n_units, 2, 3, 2) for _ in range(rng.randint(1, 5))]
+            exprs = [gen.rand_expr_flat(rng, n_units, 2, 3, 2) for _ in range(rng.randint(1, 5) if kind == "fork" else rng.randint(1, 7))]
             prov, units, es = make_prov(I, exprs, n_units)
             base = [[spec.expr_true(e, a) for e in exprs] for a in asg]
             if kind == "fork":
@@ -37,14 +41,32 @@ def run(ctx):
                 want = [[x for x, s in zip(row, sizes) for _ in range(s)] for row in base]
                 mop = {"op": "fork", "sizes": sizes}
                 case = dict(kind=kind, nUnits=n_units, exprs=exprs, sizes=sizes)
+                mops = [mop]
+                if rng.random() < 0.4:
+                    # a selection of a fork is again row-wise
+                    sl = rand_slice(rng, sum(sizes))
+                    try:
+                        res = table_of(prov.fork(arg)[sl], n_units)
+                    except Exception as e:  # noqa
+                        res = exc_name(e)
+                    want = [row[sl] for row in want]
+                    mops.append({"op": "select", "idx": list(range(*sl.indices(sum(sizes))))})
+                    case = dict(case, then_slice=slice_json(sl))
+                    label = "fork followed by a slice selection"
+                    ctx.dist["fork_then_slice"] += 1
             else:
                 n = len(exprs)
-                mode = rng.choice(["slice", "list", "mask"])
+                mode = rng.choice(["slice", "slice", "list", "mask"])
                 if mode == "slice":
                     a, b, st = rng.randrange(0, n), rng.randrange(0, n + 1), rng.choice([1, 1, 2, -1])
                     sl = slice(a, b, st) if st > 0 else slice(b, a, st) if a != b else slice(None, None, -1)
-                    idx = list(range(n))[sl]
+                    if rng.random() < 0.6:
+                        sl = rand_slice(rng, n)
+                    idx = list(range(*sl.indices(n)))       # what the model is asked for; the expectation below slices the plain list
                     sel = sl
+                    ctx.dist["slice_step=%s" % ("open" if sl.step is None else "positive" if sl.step > 0 else "negative")] += 1
+                    if sl.step is not None and sl.step < 0 and (sl.stop is None or sl.stop < -n):
+                        ctx.dist["slice_negative_step_open_or_out_of_range_stop"] += 1
                 elif mode == "list":
                     idx = [rng.randrange(n) for _ in range(rng.randint(1, n + 1))]
                     sel = idx if rng.random() < 0.5 else np.array(idx)
@@ -56,11 +78,13 @@ def run(ctx):
                     res = table_of(prov[sel], n_units)
                 except Exception as e:  # noqa
                     res = exc_name(e)
-                want = [[row[i] for i in idx] for row in base]
-                mop = {"op": "select", "idx": idx}
+                want = [row[sl] for row in base] if mode == "slice" else [[row[i] for i in idx] for row in base]
+                mops = [{"op": "select", "idx": idx}]
                 case = dict(kind=kind, nUnits=n_units, exprs=exprs, mode=mode, idx=idx)
-            model = ctx.model({"op": "history", "prov": {"nUnits": n_units, "exprs": exprs}, "ops": [mop, {"op": "table"}]})
-            mres = model["ok"][1] if model else None
+                if mode == "slice":
+                    case["slice"] = slice_json(sl)
+            model = ctx.model({"op": "history", "prov": {"nUnits": n_units, "exprs": exprs}, "ops": mops + [{"op": "table"}]})
+            mres = model["ok"][-1] if model else None
         elif kind == "groups":
             n_rows = rng.randint(1, 7)
             pool = rng.sample(range(-9, 40), rng.randint(1, 4))
@@ -146,7 +170,7 @@ def run(ctx):
         ctx.case(case, nontrivial=nontriv, sample=case, kind=kind)
         ctx.maxi(units=n_units, rows=(len(want[0]) if want else 0))
         if res != want:
-            ctx.mismatch("%s does not act row-wise" % kind, case, impl=res, model=mres, spec=want,
+            ctx.mismatch("%s does not act row-wise" % label, case, impl=res, model=mres, spec=want,
                          tag=("F10-join" if kind == "join" else None))
         if mres is not None and mres != want:
             ctx.mismatch("model disagrees with implementation and definition on %s" % kind, case, impl=res, model=mres, spec=want,
